@@ -1,4 +1,5 @@
 import StepModel.GenCxxMirror
+import StepModel.GenCxxFlags
 /-!
 # C02 — generated dictionary and classes mirror the EXPRESS schema
 
@@ -281,6 +282,28 @@ theorem C02_mangle_collision_witness :
     enumClassName [.letter 0] = className [.letter 0, .us, .letter 21, .letter 0, .letter 17] := by
   decide
 
+/-! ## the `_derive` / `_redefAttr` wiring does not disturb the order -/
+
+/-- The constructor model that also executes `MakeDerived` / `MakeRedefined` (flags on shared `STEPattribute` objects,
+    own lists of the `AppendMultInstance` parts) puts exactly the descriptors of the flag-free model on the head
+    instance, in the same order — for every schema, entity and amount of fuel.  So `C02_attr_order` speaks about the
+    instances whose flags the harness compares as well. -/
+theorem C02_flags_preserve_order (s : Schema) (n : String) :
+    (instanceFlags s n).map (fun l => l.map (·.1)) = instanceAttrs s n := by
+  unfold instanceFlags instanceAttrs
+  have hk := C02_push_compares_descriptor
+  simp only [hk, Option.map_some]
+  congr 1
+  have e := ctorNF_eff s (fuelOf s) n {} (by intro id h; simp at h)
+  have hh : descs (ctorNF s (fuelOf s) n {}) (ctorNF s (fuelOf s) n {}).head = ctorArgs s (fuelOf s) n [] := by
+    simpa [descs] using e.head
+  rw [ctorNoArg_eq, ← hh]
+  unfold descs saAt
+  rw [List.map_filterMap]
+  congr 1
+  funext id
+  cases (ctorNF s (fuelOf s) n {}).objs[id]? <;> rfl
+
 /-! ## emission order -/
 
 /-- The order in which exp2cxx emits the entities (`SCOPEget_entities_superclass_order`, which also fixes the
@@ -445,6 +468,13 @@ def exDiamond : Schema :=
 def exRank : String → Nat := fun n => if n == "a" then 0 else if n == "d" then 2 else 1
 
 example : instanceAttrs exDiamond "d" = some [⟨"a", "x", .E⟩, ⟨"a", "y", .E⟩, ⟨"c", "a.y", .R⟩, ⟨"c", "c1", .E⟩, ⟨"d", "d1", .E⟩] := by
+  decide
+
+/-- flags on the same diamond: `b` derives `a.x` (first path, marks the head's object), `c` redeclares `a.y`
+    (second path: the redefinition is recorded on the part's own copy only) -/
+example : instanceFlags exDiamond "d" =
+    some [(⟨"a", "x", .E⟩, true, false), (⟨"a", "y", .E⟩, false, false), (⟨"c", "a.y", .R⟩, false, false),
+          (⟨"c", "c1", .E⟩, false, false), (⟨"d", "d1", .E⟩, false, false)] := by
   decide
 
 example : p21Order exDiamond "d" = [("a", "x"), ("a", "y"), ("c", "c1"), ("d", "d1")] := by decide
